@@ -136,6 +136,60 @@ def chdir_case(item):
             os.chdir(old)
 
 
+def symlink_case(item):
+    """A directory reached through a symbolic link: `etc/nixos -> real/hosts/laptop`.  Whichever file a `../` hop reads (the
+    property does not say whether `..` is taken before or after the link is followed, so either is accepted), the imports written
+    in THAT file are located next to it: the pair (tag of the file read, value read through its `./` import) must come from one
+    directory, and a missing sibling is an OS error, never the file of the same name in the other directory."""
+    cwd_kind, spelling, variant = item
+    from nix_manipulator import parse_file
+
+    with tempfile.TemporaryDirectory() as root:
+        root = os.path.realpath(root)
+        files = {
+            "real/hosts/laptop/configuration.nix": "{\n  common = import ../common/base.nix;\n}\n",
+            "real/hosts/common/base.nix": '{\n  tag = "real";\n  net = import ./net.nix;\n}\n',
+            "real/hosts/common/net.nix": "{\n  port = 22;\n}\n",
+            "etc/common/net.nix": "{\n  port = 99;\n}\n",
+            "elsewhere/x": "",
+        }
+        if variant == "both-bases":
+            files["etc/common/base.nix"] = '{\n  tag = "lexical";\n  net = import ./net.nix;\n}\n'
+        if variant == "real-sibling-missing":
+            del files["real/hosts/common/net.nix"]
+        for rel, content in files.items():
+            p = os.path.join(root, rel)
+            os.makedirs(os.path.dirname(p), exist_ok=True)
+            with open(p, "w") as fh:
+                fh.write(content)
+        os.symlink(os.path.join(root, "real", "hosts", "laptop"), os.path.join(root, "etc", "nixos"), target_is_directory=True)
+        dirs = {"root": root, "link": os.path.join(root, "etc", "nixos"), "elsewhere": os.path.join(root, "elsewhere")}
+        old = os.getcwd()
+        os.chdir(dirs[cwd_kind])
+        try:
+            entry_abs = os.path.join(root, "etc", "nixos", "configuration.nix")
+            entry = entry_abs if spelling == "absolute" else os.path.relpath(entry_abs, os.path.join(root, "etc", "nixos") if cwd_kind == "link" else dirs[cwd_kind])
+            try:
+                base = parse_file(entry)["common"]
+                tag = base["tag"].rebuild().strip().strip('"')
+            except OSError:
+                return ["first-hop:got-OSError"]
+            except Exception as e:
+                return [f"first-hop:got-{type(e).__name__}"]
+            try:
+                port = int(base["net"]["port"].rebuild().strip())
+            except OSError:
+                port = "OSError"
+            except Exception as e:
+                port = type(e).__name__
+            expect = {"real": "OSError" if variant == "real-sibling-missing" else 22, "lexical": 99}.get(tag, "?")
+            if port != expect:
+                return [f"symlinked-directory:file-read-is-{tag}-but-its-sibling-import-gives-{port}"]
+            return []
+        finally:
+            os.chdir(old)
+
+
 def history_case(_=None):
     """Two directory trees with the same layout, same file sizes and same mtimes (like the Nix store), visited one
     after the other in ONE process with relatively spelled entry paths: the second visit must read the second tree."""
@@ -187,7 +241,14 @@ def run(tier, seed):
         citems = [(a, b, sp) for a in ("root", "parent", "sub", "unrelated") for b in ("root", "unrelated", "deep", "parent") if a != b
                   for sp in ("absolute",)]
         cres = pool.map(chdir_case, citems, chunksize=1)
+        sitems = [(c, sp, v) for c in ("root", "link", "elsewhere") for sp in ("absolute", "relative") for v in ("plain", "both-bases", "real-sibling-missing")]
+        sres = pool.map(symlink_case, sitems, chunksize=1)
     vio = []
+    for it, bad in zip(sitems, sres):
+        for b in bad:
+            vio.append(dict(check="imports-symlink", signature=f"{b}|{it[2]}|cwd={it[0]}|entry={it[1]}", what=f"C17 {b} (entry etc/nixos/configuration.nix, etc/nixos a link; {it})",
+                            has_input=True, inputs={"symlink": list(it)},
+                            failing_input={"inputs": {"cwd": it[0], "spelling": it[1], "variant": it[2]}, "observed": b, "origin": "generated layout"}))
     for it, bad in zip(citems, cres):
         for b in bad:
             sig = f"{b}|parsed-under={it[0]}|looked-up-under={it[1]}"
@@ -203,11 +264,11 @@ def run(tier, seed):
             vio.append(dict(check="imports", signature=sig, what=f"C17 lookup {b} with cwd={it[0]}, entry spelled {it[1]}", has_input=True,
                             inputs={"cwd": it[0], "spelling": it[1]},
                             failing_input={"inputs": {"cwd": it[0], "spelling": it[1], "lookup": b}, "observed": b, "origin": "generated layout"}))
-    n = (len(items) + len(citems)) * len(LOOKUPS)
+    n = (len(items) + len(citems)) * len(LOOKUPS) + len(sitems)
     return dict(evaluations=n, distinct_nontrivial=n,
                 rule="a generated directory tree (sibling, child, parent, ./ and ../, absolute, parenthesised, chains of 1-4 hops through three "
                      "directories, decoy files of the same names elsewhere) x 4 working directories x 3 spellings of the entry path x 12 lookups "
-                     "incl. the three error cases",
+                     "incl. the three error cases; plus a directory reached through a symbolic link (3 working directories x 2 spellings x 3 variants)",
                 samples=[dict(cwd=i[0], entry=i[1]) for i in items[:3]], exhaustive=True, violations=vio, seconds=time.time() - t0)
 
 
@@ -215,6 +276,13 @@ def replay(v):
     if v["inputs"].get("chdir"):
         bad = chdir_case(tuple(v["inputs"]["chdir"]))
         print("chdir ->", bad)
+        if bad:
+            print("VIOLATION property=C17 replay=<given>")
+            return 1
+        return 0
+    if v["inputs"].get("symlink"):
+        bad = symlink_case(tuple(v["inputs"]["symlink"]))
+        print("symlink ->", bad)
         if bad:
             print("VIOLATION property=C17 replay=<given>")
             return 1
